@@ -127,8 +127,8 @@ def type_code(node, parent, I, below_root=False):
         if pt == "ATTRIBUTES":
             return [20, I(t), 0]
         if pt == "SignalGroup":
-            if t == "SignalName" and node.result == "changed":
-                return [15, 0, 0]
+            if node.result == "changed" and not node.children:
+                return [15, 0, 0] if t == "SignalName" else [100, 0, 0]     # a changed property of the group (members are only added/deleted)
             return [16, I(t), 0]
         if pt == "Valuetable":
             k = int(t.split(" ")[1])
@@ -146,6 +146,8 @@ def type_code(node, parent, I, below_root=False):
             return [10, I(t[len("valuetable "):]), 0]
         if pt == "SIGNAL" and t.startswith("receiver "):
             return [37, I(t[len("receiver "):]), 0]
+        if t not in FIXED and node.result == "changed" and not node.children:
+            return [100, 0, 0]
         return [FIXED[t], 0, 0]
     except Exception:
         return [-2, 0, 0]
@@ -178,6 +180,10 @@ def enc_tree(res, I, vtids):
     return out
 
 
+# type codes of childless "changed" nodes that name a scalar property of their parent object (incl. unknown labels: 100)
+FIELD_CODES = {1, 4, 15, 18, 19, 21, 22, 23, 100} | set(range(26, 37))
+
+
 def canon_tree(groups):
     """canonical form of an encoded answer for the model/implementation tie.  The property observes result, type and ref of
     every node and names three KINDS of report (addition, deletion, change): it fixes neither an order among sibling nodes nor
@@ -193,7 +199,15 @@ def canon_tree(groups):
         kids = []
         while pos[0] < len(nodes_) and nodes_[pos[0]][0] == depth + 1:
             kids.append(build(depth + 1))
-        return (3 if g[1] == 4 else g[1],) + tuple(g[2:]) + (tuple(sorted(kids)),)
+        r = 3 if g[1] == 4 else g[1]
+        t = list(g[2:5])
+        if r in (2, 3):
+            kids = []               # whether the parts of an added / deleted object are listed below it is not fixed
+        if t[0] == 3:
+            t[0] = 4                # "ecu" / "ECU": spelling of a type label
+        if r == 1 and not kids and t[0] in FIELD_CODES:
+            t = [100, 0, 0]         # a changed property of the parent object: the label's wording is not fixed
+        return (r,) + tuple(t) + tuple(g[5:]) + (tuple(sorted(kids)),)
     root = build(0)
     return (1, root) if pos[0] == len(nodes_) else tuple(map(tuple, groups))
 
@@ -340,6 +354,26 @@ def coherent(a, b):
     return all(fa.name == fb.name for fa in a.frames for fb in b.frames if arbkey(fa) == arbkey(fb))
 
 
+class Enc(list):
+    """encoded answer; open_pairing: some frame pair has signals without partner by name on BOTH sides at one place
+    (start, size, byte order, multiplexing) - whether such signals are one renamed signal or a deleted and an added one is not
+    fixed by the property, so these answers are judged by the search (iff, swap) but not tied to the model"""
+    open_pairing = False
+
+
+def place_coincidence(a, b):
+    def place(sg):
+        return sg.start_bit, sg.size, bool(sg.is_little_endian), str(sg.multiplex)
+    for fa in a.frames:
+        for fb in b.frames:
+            if fa.name == fb.name or arbkey(fa) == arbkey(fb):
+                na, nb = {x.name for x in fa.signals}, {x.name for x in fb.signals}
+                pa = {place(x) for x in fa.signals if x.name not in nb}
+                if pa and pa & {place(x) for x in fb.signals if x.name not in na}:
+                    return True
+    return False
+
+
 def names_unique(db):
     n = [f.name for f in db.frames]
     return len(n) == len(set(n))
@@ -355,8 +389,7 @@ def pair_frames(a, b):
 
 def root_frames(res, kinds):
     """names of the frames reported directly below the root with one of the given results, in report order"""
-    return [c.ref.name for c in res.children if c.type == "FRAME" and c.result in kinds and not c.children
-            and hasattr(c.ref, "signals")]
+    return [c.ref.name for c in res.children if c.type == "FRAME" and c.result in kinds and hasattr(c.ref, "signals")]
 
 
 def envelope(db):
@@ -1229,7 +1262,8 @@ def run(chk):
         nonec = [f for db in (a, b) for f in db.frames if f.comment is None]
         try:
             res = cmp.compare_db(a, b, ign_dict(bits))
-            enc = [[1]] + enc_tree(res, I, vtids)
+            enc = Enc([[1]] + enc_tree(res, I, vtids))
+            enc.open_pairing = place_coincidence(a, b)
         except TypeError:
             res, enc = None, [[0]]
         for f in nonec:
@@ -1237,6 +1271,10 @@ def run(chk):
         return res, case, enc, None
 
     def tie(case, enc, inf):
+        if getattr(enc, "open_pairing", False):
+            chk.count("tie-skipped: partnerless signals at one place on both sides (pairing of signals not fixed)")
+            return
+        chk.count("tie-cases")
         lines.append(core.fmt_case(1301, case))
         expect.append(enc)
         info.append(inf)
